@@ -258,6 +258,7 @@ def run(tier, seed):
             'activity': 'activity_Bq', 'basename': 'basename'}
     for k, pat in need.items():
         rep.add('REFUSAL', k, where(dc), 'driver constructor throws on an invalid %s' % k, any(pat in t for t in gtxt))
+    _per_category(rep, prog, dc, FD)
     _window_guard(rep, dc)
     rep.assumptions += ['decided: write ordering, loop shape, determinism sources, configuration forwarding, refusal predicates',
                         'not decided: byte identity of two actual files, exact equality with API events beyond the structural '
@@ -368,3 +369,71 @@ def _unconditional(fn, node):
         if st['k'] == 'Expr' and any(x is node for x in astu.walk(st)):
             return True
     return False
+
+
+def _per_category(rep, prog, dc, FD):
+    """REFUSAL per-category: a nuclide missing from the catalogue of the *requested* category is refused even when the other
+    catalogue lists it (three-valued path search through the constructor: is a normal return reachable?)"""
+    en = prog.enums.get('bxdecay0::decay0_generator::decay_category_type')
+    if not en:
+        raise AnalysisBroken('REFUSAL: enumeration decay_category_type not found')
+    val = {e['name']: e['val'] for e in en['enumerators']}
+    scen = [('background', val['DECAY_CATEGORY_BACKGROUND'], 'background_isotopes', 'dbd_isotopes'),
+            ('dbd', val['DECAY_CATEGORY_DBD'], 'dbd_isotopes', 'background_isotopes')]
+
+    def ev(e, cat, absent, present):
+        k = e[0]
+        if k == 'num':
+            return e[1] != 0
+        if k == 'op' and e[1] == 'not':
+            v = ev(e[2], cat, absent, present)
+            return None if v is None else (not v)
+        if k == 'op' and e[1] in ('and', 'or'):
+            vs = [ev(x, cat, absent, present) for x in e[2:]]
+            if e[1] == 'and':
+                return False if any(v is False for v in vs) else (None if any(v is None for v in vs) else True)
+            return True if any(v is True for v in vs) else (None if any(v is None for v in vs) else False)
+        if k == 'op' and e[1] in ('==', '!=') and len(e) == 4:
+            a, b = e[2], e[3]
+            for x, y in ((a, b), (b, a)):
+                if x[0] == 'fld' and x[2] == 'decay_category' and y[0] == 'num':
+                    return (y[1] == cat) == (e[1] == '==')
+            return None
+        if k == 'call' and e[1].split('::')[-1] in ('count', 'contains') and len(e) >= 3 and e[2][0] == 'call':
+            which = e[2][1].split('::')[-1]
+            if which == absent:
+                return False
+            if which == present:
+                return True
+        if k == 'op' and e[1] in ('>', '!=') and len(e) == 4 and e[3][0] == 'num' and e[3][1] == 0:
+            return ev(e[2], cat, absent, present)
+        return None
+    for name, cat, absent, present in scen:
+        seen, st, leak = set(), [(FD.g.entry.id, ())], None
+        while st and leak is None:
+            i, path = st.pop()
+            if i in seen:
+                continue
+            seen.add(i)
+            n = FD.g.nodes[i]
+            if n.kind == 'return':
+                leak = path
+                break
+            if n.kind == 'throw':
+                continue
+            if n.kind == 'branch' and len(n.succ) == 2 and n.succ[0] != n.succ[1]:
+                v = ev(n.stmt[1], cat, absent, present)
+                if v is not False:
+                    st.append((n.succ[0], path + ((n.line, True),)))
+                if v is not True:
+                    st.append((n.succ[1], path + ((n.line, False),)))
+                continue
+            for s_ in n.succ:
+                st.append((s_, path))
+        ok = leak is None
+        rep.add('REFUSAL', 'per-category:' + name, where(dc, leak[-1][0] if leak else dc['l']),
+                'a %s request for a nuclide that %s() does not list is refused by the constructor even when %s() lists it'
+                % (name, absent, present), ok,
+                None if ok else ['the constructor can return normally (tests passed: %s): the name then reaches the generator, whose '
+                                 'dispatch matches name prefixes - e.g. a background request for a double-beta name' %
+                                 ', '.join('line %d %s' % (l, 'taken' if t else 'not taken') for l, t in leak[-6:])])
